@@ -10,7 +10,7 @@ for d in sorted(glob.glob("/verif/seeded/*/")):
     r = json.load(open(d + "result.json")) if os.path.exists(d + "result.json") else {}
     rows.append((m, r))
 n = len(rows)
-missed = [m for m, r in rows if m.get("note", "").startswith("missed at first")]
+missed = [m for m, r in rows if m.get("note", "").startswith("missed at first") or m.get("note", "").startswith("missed by")]
 undetected = [m["id"] for m, r in rows if not r.get("detected_by")]
 table = subprocess.run(["python3", "/verif/vf/seedtable.py"], capture_output=True, text=True).stdout
 misstab = "| missed change | why it was missed, and what was added |\n|---|---|\n" + "\n".join(
@@ -33,7 +33,8 @@ build, existing suite, demo fails on the changed tree and passes on the original
 applies a patch to `/repo`, runs the checks and restores `/repo`; nothing was ever committed there.
 
 **Result: {"all %d are" % n if not undetected else "%d of %d are" % (n - len(undetected), n)} reported by the property's own quick check** — {n - len(missed)} at first try, {len(missed)} only after a
-check was strengthened.  Misses per round: 3 of 19, 8 of 16, 6 of 12, 9 of 38, 12 of 38, 7 of 38 — the narrower and
+check was strengthened (rounds 1 to 6: 3 of 19, 8 of 16, 6 of 12, 9 of 38, 12 of 38, 7 of 38; later rounds are in the
+table) — the narrower and
 the more "glue-like" the trigger asked for, the more often a generator lacked the input class.  Every miss was a gap in
 a generator (an input class nobody generated: a root spelled with a trailing slash, a tag that already looks quoted, a
 body of undeclared length, a wrapped error, a value reused across two calls …) or in a judge (a difference computed
